@@ -28,6 +28,7 @@ thread_local! {
     static RELEASES: Cell<u64> = const { Cell::new(0) };
     static ZERO_TIME: Cell<u64> = const { Cell::new(0) };
     static NEG_ZERO_TIME: Cell<u64> = const { Cell::new(0) };
+    static ULP_GLIDES: Cell<u64> = const { Cell::new(0) };
     static MIDSTREAM: Cell<u64> = const { Cell::new(0) };
 }
 fn ev(n: u64) {
@@ -214,8 +215,11 @@ where
     } else {
         Dev::Det(Detector::new(mk(), att, rel))
     };
+    let mut ci = 0usize; // the schedule's changes are in step order
     for (step, fr) in frames.iter().enumerate() {
-        for (at, a, r) in &sched.changes {
+        while ci < sched.changes.len() && sched.changes[ci].0 <= step {
+            let (at, a, r) = &sched.changes[ci];
+            ci += 1;
             if *at == step {
                 att = *a;
                 rel = *r;
@@ -405,6 +409,15 @@ fn sched_for(rng: &mut Rng, n: usize, which: usize) -> Sched {
         a2 = pick(rng);
         changes.push((2 * n / 3, a2, if a2 == r2 { r2 + 1.0 } else { r2 }));
     }
+    // a glide: attack and release move by ONE ULP before every frame (slow automation). A setter
+    // that treats "within rounding of the last request" as "unchanged" never refreshes its gain.
+    if which % 4 == 3 {
+        let (a0, r0) = (if a < 0.5 || a > 1e6 { 1.0f32 } else { a }, if r < 0.5 || r > 1e6 { 2.0f32 } else { r });
+        a = a0;
+        r = r0;
+        changes = (1..n).map(|k| (k, f32::from_bits(a0.to_bits() + k as u32), f32::from_bits(r0.to_bits() - k as u32))).collect();
+        ULP_GLIDES.with(|c| c.set(c.get() + 1));
+    }
     Sched { attack: a, release: r, changes }
 }
 
@@ -477,6 +490,7 @@ fn flush(rep: &mut Report) {
     rep.hit_n("release_steps", RELEASES.with(|c| c.replace(0)));
     rep.hit_n("zero_time_steps", ZERO_TIME.with(|c| c.replace(0)));
     rep.hit_n("negative_zero_time_steps", NEG_ZERO_TIME.with(|c| c.replace(0)));
+    rep.hit_n("one_ulp_parameter_glides", ULP_GLIDES.with(|c| c.replace(0)));
     rep.hit_n("mid_stream_parameter_changes", MIDSTREAM.with(|c| c.replace(0)));
 }
 
@@ -495,7 +509,7 @@ fn main() {
         flush(&mut rep);
         checks::finish(&cli, rep, t0);
     }
-    for o in ["attack_steps", "release_steps", "zero_time_steps", "negative_zero_time_steps", "mid_stream_parameter_changes"] {
+    for o in ["attack_steps", "release_steps", "zero_time_steps", "negative_zero_time_steps", "one_ulp_parameter_glides", "mid_stream_parameter_changes"] {
         rep.oblige(o, 1);
     }
     rectifiers(&mut rep, cli.seed, cli.t(100_000, 3_000_000));
